@@ -172,8 +172,19 @@ func genConcCase(rng *hlib.Rng, w *world, id int, rep *hlib.Report) *Case {
 						st.Nonce[a]++
 						st.Bal[a] -= cost.Uint64()
 					}
-					if rng.Chance(20) {
+					switch rng.Pick(65, 20, 15) {
+					case 1:
 						st.Bal[a] = pick(rng, balDomain)
+					case 2: // at / one below / one above the cost of a transaction of this account
+						var costs []uint64
+						for _, sp := range u.specs {
+							if cst := sp.Cost(); sp.From == a && cst.IsUint64() && cst.Uint64() > 0 {
+								costs = append(costs, cst.Uint64())
+							}
+						}
+						if len(costs) > 0 {
+							st.Bal[a] = pick(rng, costs) + uint64(rng.Intn(3)) - 1
+						}
 					}
 				}
 				if rng.Chance(15) {
